@@ -1,9 +1,9 @@
 CONSTANTS
   NInst = 3
   MaxFaults = 1
-  Depth = 3
-  Slow = FALSE
-  Lean = TRUE
+  Depth = 4
+  Slow = TRUE
+  Lean = FALSE
   HandleInst <- HandleOne
 INIT Init
 NEXT Next
